@@ -28,6 +28,31 @@ type c08Struct struct {
 	Any    any
 }
 
+// embedding: fields promoted from embedded structs (exported and unexported embedded types, a pointer, two levels)
+type c08base struct {
+	ID    int
+	Title string
+	low   string
+}
+type C08Pub struct{ Tag string }
+type c08mid struct{ C08Pub }
+type c08Doc struct {
+	c08base
+	C08Pub
+	*c08Inner
+	Body string
+}
+type c08Doc2 struct {
+	c08mid
+	Body string
+}
+type c08NilEmb struct {
+	*c08Inner
+	Body string
+}
+
+func (b c08base) Caption() string { return "C" + b.Title }
+
 func (s c08Struct) Upper() string         { return "U" + s.Name }
 func (s *c08Struct) PtrMeth() int {
 	if s == nil {
@@ -103,6 +128,11 @@ func c08Universe() *c08U {
 		"fnva": func(a string, xs ...int) string { return a + itoa(len(xs)) },
 		"fnbad": func() (int, int, int) { return 1, 2, 3 },
 		"k":     u.k, "ks": u.ks, "one": 1,
+		"doc":  c08Doc{c08base{u.n, u.s0, u.s2}, C08Pub{u.s1}, &c08Inner{u.s2, u.i1}, u.sk},
+		"pdoc": &c08Doc{c08base{u.n, u.s0, u.s2}, C08Pub{u.s1}, &c08Inner{u.s2, u.i1}, u.sk},
+		"doc2": c08Doc2{c08mid{C08Pub{u.s1}}, u.sk},
+		"nemb": c08NilEmb{nil, u.sk},
+		"kf":   "Title",
 	}
 	return u
 }
@@ -169,6 +199,11 @@ func (u *c08U) cases() []c08Case {
 		ok("fnctxav(i)", itoa(u.n*10)), ok("fnctxav(i, one)", itoa(u.n*10+1)), er("fnctxav()"),
 		ok("fnva(ks)", u.ks+"0"), ok("fnva(ks, one, i)", u.ks+"2"), er("fnva(one)"),
 		er("i()"), er("str()"), ok("nilv()", ""),
+		// promoted fields and methods of embedded structs
+		ok("doc.Body", u.sk), ok("doc.ID", itoa(u.n)), ok("doc.Title", u.s0), ok("doc[\"Title\"]", u.s0), ok("doc[kf]", u.s0), ok("doc.low", ""), ok("doc.Tag", u.s1),
+		ok("doc.C08Pub.Tag", u.s1), ok("doc.Name", u.s2), ok("doc.N", itoa(u.i1)), ok("doc.Caption", "C"+u.s0), ok("doc.c08base", ""), ok("doc.c08base.Title", ""),
+		ok("pdoc.Title", u.s0), ok("pdoc.Name", u.s2), ok("pdoc.Tag", u.s1), ok("pdoc[ks]", ""), ok("doc2.Tag", u.s1), ok("doc2.Body", u.sk), ok("doc2.c08mid.Tag", ""),
+		ok("nemb.Body", u.sk), ok("nemb.Name", ""), ok("nemb.c08Inner", ""),
 	}
 }
 
